@@ -285,6 +285,19 @@ pub fn cases(thorough: bool) -> Vec<Case> {
             }
         }
     }
+    // chains past the window wrap (small genesis period): the blocks that a failed reorganisation
+    // unwinds and winds again contain rebroadcasts and spends of outputs close to expiry
+    for gp in [4u64, 5] {
+        for m in (gp as usize + 1)..=(gp as usize + if thorough { 7 } else { 4 }) {
+            for d in 1..=3usize {
+                for kind in [Kind::Hdr(BlockEdit::BurnFee), Kind::Hdr(BlockEdit::CreatorSig), Kind::Tx(TxEdit::NonExistentInput), Kind::Tx(TxEdit::SpentInput)] {
+                    for owner in [5u8, 0] {
+                        out.push(Case { shape: 0, prune: 8, owner, gp, loading_completed: true, m, d, k: d + 1, pos: d, kind, with_txs: true });
+                    }
+                }
+            }
+        }
+    }
     for loading_completed in [true, false] {
         for m in 1..=mmax {
             for d in 0..=m.min(if thorough { 6 } else { 3 }) {
